@@ -6,6 +6,7 @@ Families (all enumerated completely, see DESIGN.md C01):
   everyk   k = 1..32 x |prefix| in {1,2,5}: pad.prefix.kmer.pad and reverse complements, truncated by one letter
   colls    ordered pairs (thorough: triples) of 12 short contigs, as list / tuple / generator / bare sequence
   layout   motifs embedded behind / before pads of 0..257 letters (position-keyed shortcuts)
+  selfoverlap every string up to length 13 (16) over the letters of prefixes that overlap themselves in several ways (AAA, ATATA, ACACA...)
   long     occurrences straddling positions around 2^10 .. 2^16 (2^20) in long sequences
   histories every sequence of valid / failing calls in one thread (state kept between calls)
 Each case: 4 sequence types x {SetAccumulator, ArrayAccumulator (k<=8), default} on the real calc_signature,
@@ -54,6 +55,8 @@ def plan(tier, seed):
 		tasks.append(('t_histories', dict(ki=ki, depth=3 if tier == 'quick' else 4)))
 	for part in range(4):
 		tasks.append(('t_long', dict(part=part, nparts=4, tier=tier)))
+	for si in range(len(SELF_OVERLAP_SPECS)):
+		tasks.append(('t_selfoverlap', dict(si=si, L=13 if tier == 'quick' else 16)))
 	return tasks
 
 
@@ -228,6 +231,28 @@ def t_colls(triples):
 	return sh
 
 
+# prefixes with SEVERAL self-overlaps (borders): occurrences may overlap each other by more than one amount
+SELF_OVERLAP_SPECS = [(1, b'AAA', b'AC'), (2, b'TTTT', b'TG'), (2, b'ATATA', b'AT'), (1, b'ACACA', b'AC'), (2, b'AATAA', b'AT'), (3, b'ATAT', b'AT'), (1, b'ACCAC', b'AC')]
+
+
+def t_selfoverlap(si, L):
+	"""Every string up to length L over the two letters of the prefix (plus, shorter, over three letters): all overlap patterns of a prefix that
+	overlaps itself in more than one way - a search that skips ahead after a match (by any border but the longest) loses occurrences here."""
+	sh = Shard()
+	k, prefix, letters = SELF_OVERLAP_SPECS[si]
+	for n in range(0, L + 1):
+		for t in itertools.product(letters, repeat=n):
+			check_case(sh, k, prefix, [bytes(t)], variants='light' if n > 8 else 'all')
+	third = bytes(set(b'ACGT') - set(letters))[:1]
+	for n in range(0, min(L, 10) + 1):
+		for t in itertools.product(letters + third, repeat=n):
+			if third[0] in t:
+				check_case(sh, k, prefix, [bytes(t)], variants='light')
+	sh.count('self_overlap_cases', sh.evals)
+	sh.sample(dict(family='selfoverlap', k=k, prefix=prefix.decode(), letters=letters.decode(), maxlen=L))
+	return sh
+
+
 def t_long(part, nparts, tier):
 	"""Long sequences: one or two occurrences (forward / reverse, valid / with an invalid byte) placed so that prefix and k-mer straddle every
 	position p-1, p, p+1 around p = 2^10, 2^12, 2^13, 2^16 (thorough also 2^20) in an otherwise occurrence-free background of three kinds - a
@@ -345,7 +370,7 @@ def t_layout(padkind):
 
 def finalize(agg, tier):
 	for c in ('cases_with_forward_occurrence', 'cases_with_reverse_occurrence', 'cases_with_dropped_occurrence',
-	          'cases_with_overlapping_occurrences', 'cases_where_concatenation_would_differ', 'valid_calls_after_a_failed_call', 'long_sequences'):
+	          'cases_with_overlapping_occurrences', 'cases_where_concatenation_would_differ', 'valid_calls_after_a_failed_call', 'long_sequences', 'self_overlap_cases'):
 		agg.require(c, 100)
 
 
